@@ -186,6 +186,22 @@ fn check_named(ctx: &mut Ctx, section: &str, frame: &[u8]) -> Vec<Violation> {
                 Read::Panic(sig, d) => out.push(Violation::new(section, sig, format!("crash: {}\nframe: {}", d, hex(frame)), case.clone())),
                 Read::Other(_) => {}
             }
+            // the other order: the layer below has already been parsed (and cached) through `$n`; a named property
+            // that the dispatch field does not select must still not hand out that cached object
+            if Some(*prop) != next {
+                let pkt2 = make_packet(1, 2, frame.len() as u32, frame.len() as u32, frame);
+                let exprs2 = vec![format!("${}", depth + 1), format!("(${}).{}", depth, prop.name())];
+                if let Read::Values(v) = read_exprs(&pkt2, &exprs2) {
+                    if matches!(&v[1], Val::Other(_)) {
+                        out.push(Violation::new(
+                            section,
+                            format!("named:{}.{}:wrong-layer-after-cached-access", p.layer.name(), prop.name()),
+                            format!("after ${}, (${}).{} yields {} but the dispatch field selects {:?}\nframe: {}", depth + 1, depth, prop.name(), v[1].show(), next.map(|l| l.name()), hex(frame)),
+                            case.clone(),
+                        ));
+                    }
+                }
+            }
         }
     }
     out
